@@ -224,7 +224,7 @@ func sortInts(xs []int) {
 func genStorm(r *lib.Rng, tier string) *Case {
 	c := &Case{Mode: "conc", Seed: r.U64(), Barrier: true, Reps: 100}
 	if tier == "thorough" {
-		c.Reps = 200
+		c.Reps = 60 // many more storm cases, fewer repetitions each (time budget of the harness)
 	}
 	sh := newShadow()
 	emit := func(o Op) { c.Ops = append(c.Ops, o); sh.apply(o) }
@@ -259,7 +259,7 @@ func genStorm(r *lib.Rng, tier string) *Case {
 }
 
 func genConc(r *lib.Rng, tier string) *Case {
-	if r.Chance(1, 6) {
+	if (tier != "thorough" && r.Chance(1, 6)) || (tier == "thorough" && r.Chance(1, 12)) {
 		return genStorm(r, tier)
 	}
 	c := &Case{Mode: "conc", Seed: r.U64()}
